@@ -79,6 +79,21 @@ theorem c20_period_invariant (g a m L T M L' T' M' : K)
   simp only [convertG, convertMass, convertLength, p_powi, sc_hmul, sc_hdiv]
   field_simp
 
+/-- the phase of an orbit given by a time of pericentre passage does not depend on the unit system: the squared
+    mean anomaly `n² (t−T)² = G (M+m)/a³ · (t−T)²` computed from converted mass, semi-major axis and time difference
+    with the new system's `G` equals the one computed in the old system; computed **without** `G` (Kepler's third
+    law "for G = 1") it changes by the ratio of the two gravitational constants — what a formula that forgets
+    `simulation.G` does in any unit system with `G ≠ 1` -/
+theorem c20_mean_anomaly_from_T_invariant (g a mt dt L T M L' T' M' : K)
+    (hg : g ≠ 0) (ha : a ≠ 0)
+    (hL : L ≠ 0) (hT : T ≠ 0) (hM : M ≠ 0) (hL' : L' ≠ 0) (hT' : T' ≠ 0) (hM' : M' ≠ 0) :
+    convertG g L' T' M' * convertMass mt M M' / (convertLength a L L') ^ 3 * (dt * T / T') ^ 2 =
+      convertG g L T M * mt / a ^ 3 * dt ^ 2 ∧
+    convertMass mt M M' / (convertLength a L L') ^ 3 * (dt * T / T') ^ 2 =
+      (mt / a ^ 3 * dt ^ 2) * (convertG g L T M / convertG g L' T' M') := by
+  constructor <;>
+    simp only [convertG, convertMass, convertLength, p_powi, sc_hmul, sc_hdiv] <;> field_simp
+
 /-- `yr2pi = √(au³/GM_sun)` and `msun = GM_sun/G_SI` give `G = 1` exactly with lengths in au
     (`s` is any square root of `au³/GM_sun`) -/
 theorem c20_G_one_au_yr2pi_msun (g au gm s : K) (hg : g ≠ 0) (hau : au ≠ 0) (hgm : gm ≠ 0)
